@@ -330,6 +330,29 @@ def run_sequence(chk, kind, st, els, r, length):
                 if got_si != exp_si:
                     chk.violation(f"quantities/{kind}/sindex-depends-on-derivation", dict(rep, box=list(b), source_index_built=indexed, derived=got_si, from_bounds=exp_si)); return
             chk.count("index-queries:" + ("source-indexed" if indexed else "no-source-index"))
+            # wrapped in a Series / DataFrame with labels that are a permutation of the positions, index built on the wrapper:
+            # `.cx` selects by position (rows k with the box answer True), labels follow the rows
+            from spatialpandas import GeoDataFrame, GeoSeries
+            labels = list(range(len(cur)))
+            r.shuffle(labels)
+            b = BOXES[0]
+            wm = want[f"ib{b}"]
+            exp_lab = [labels[k] for k in range(len(cur)) if wm[k]]
+            exp_cx = [canon_el(exp_els[k]) for k in range(len(cur)) if wm[k]]
+            for wname in ("GeoSeries", "GeoDataFrame"):
+                try:
+                    w = GeoSeries(cur, index=labels) if wname == "GeoSeries" else GeoDataFrame({"g": cur, "v": list(range(len(cur)))}, index=labels)
+                    for built in (False, True):
+                        if built:
+                            w.build_sindex()
+                        res = w.cx[b[0]:b[2], b[1]:b[3]]
+                        garr = res.array if wname == "GeoSeries" else res["g"].array
+                        if list(res.index) != exp_lab or canon_el(geo.to_elements(garr)) != exp_cx:
+                            chk.violation(f"wrapper/{kind}/{wname}.cx-rows-differ/{'index-built' if built else 'no-index'}",
+                                          dict(rep, box=list(b), labels=labels, got_labels=[int(x) for x in res.index], expected_labels=exp_lab)); return
+                except Exception as ex:  # noqa: BLE001
+                    chk.violation(f"wrapper/{kind}/{wname}.cx-raises-{common.err_kind(ex)}", dict(rep, box=list(b), labels=labels, error=repr(ex)[:200])); return
+            chk.count("wrapper-cx")
         # whole-array quantities: total_bounds (= NaN-ignoring fold of the selected rows' bounds of the source) and the
         # default-argument Hilbert distance (which uses it)
         sel = [q0["bounds"][i] for i in cur_idx if i is not None]
